@@ -101,3 +101,29 @@ Proof.
   destruct demo_run as (A & B & C & D & _). auto.
 Qed.
 Print Assumptions C01_example.
+
+(* ---- the sequential path (n_jobs resolves to 1): Model/ParallelSeq.v, proofs in Proofs/SeqThm.v *)
+Require Import JV.Model.ParallelSeq JV.Proofs.SeqThm.
+
+(* return_as="list", nothing fails: exactly the sequential results; every task started and finished once; the
+   input consumed exactly to its end; the object idle afterwards -- for every input length and batch size *)
+Theorem C01_seq_path_returns_sequential_results : forall s cf, qrunning s = false -> wf_qcfg cf -> qgen cf = false ->
+  qifail cf = None -> qtfail cf = None ->
+  snd (qstep s (QCall cf)) = [QReturned (seq 0 (qN cf))] /\
+  qndisp (fst (qstep s (QCall cf))) = qN cf /\ qncomp (fst (qstep s (QCall cf))) = qN cf /\
+  qtaken (fst (qstep s (QCall cf))) = qN cf /\ qrunning (fst (qstep s (QCall cf))) = false.
+Proof. exact seq_list_returns_sequential_results. Qed.
+Print Assumptions C01_seq_path_returns_sequential_results.
+
+(* return_as="generator": after any history the values handed out so far are 0, 1, .., k-1, and each request that
+   yields gives the next one *)
+Theorem C01_seq_path_generator_in_order : forall s, qreach s ->
+  qdelivered s = seq 0 (length (qdelivered s)) /\
+  forall s1 v, qstep s QNext = (s1, [QVal v]) -> v = length (qdelivered s) /\ qdelivered s1 = qdelivered s ++ [v].
+Proof. exact seq_generator_yields_in_order. Qed.
+Print Assumptions C01_seq_path_generator_in_order.
+
+Example C01_seq_path_example : snd (qrun qinit qdemo_events) =
+  [[QGen]; [QVal 0]; [QVal 1]; [QVal 2]; [QRaised (ErrTask 3)]; [QStopped]; [QReturned [0; 1; 2]]].
+Proof. exact qdemo_run. Qed.
+Print Assumptions C01_seq_path_example.
